@@ -27,6 +27,10 @@ type Batch struct {
 
 var errMemReadOnly = errors.New("engine: read-only")
 
+// errMemCrashed is returned by every call on a store whose armed crash point was reached (crash
+// model in db.go; never returned unless a harness armed a crash).
+var errMemCrashed = errors.New("engine: process crashed (verification crash model)")
+
 // Set stages a key/value write.
 func (b *Batch) Set(key []byte, value []byte) error {
 	if b == nil || b.batch == nil {
@@ -84,6 +88,12 @@ func (b *Batch) Commit(sync bool) error {
 	}
 	if b.batch.committed {
 		return dberrors.ErrClosed
+	}
+	if cs := b.batch.store.crash; cs != nil {
+		// crash model: record the commit and its sync flag, or fail at / after the armed crash point
+		if err := cs.admit(b.batch.ops, sync); err != nil {
+			return err
+		}
 	}
 	b.batch.committed = true
 	for _, op := range b.batch.ops {
